@@ -214,15 +214,17 @@ theorem runTreeT_erases (wt : Int → Int → Bool) (cfg : Cfg) (iter : Nat) (pt
 (ii) the interval the search starts from – the inherited bounding box, clipped at the
 ancestors' `split_pos` – contains the node's points, and the two sides lie on their sides
 of the node's `split_pos` (so the clipped boxes contain the children's points);
-(iii) the points of the node are the leaves below it (`Tree.members`, the tree of C03), and
-the root holds all points. -/
+(iii) the points of the node are the leaves below it (`Tree.members`): `t` is the bisection
+tree of C03 (`IsBisection`; it is the tree `rcb_is_bisection` exhibits) and the root holds
+all points. -/
 theorem rcb_recursion_invariant (wt : Int → Int → Bool) (cfg : Cfg) (iter : Nat)
     (pts : List (List Int)) (ws : List Int) (t : Tree (NodeInfo Int))
     (hdim : 0 < cfg.dim) (hw : ∀ w ∈ ws, 0 ≤ w) (hlen : ws.length = pts.length)
     (h : runTree wt cfg iter pts ws (bbox cfg.dim pts).1 (bbox cfg.dim pts).2 = .ok t) :
     ∃ tt : Tree (NodeTrace Int),
       runTreeT wt cfg iter pts ws (bbox cfg.dim pts).1 (bbox cfg.dim pts).2 = .ok tt ∧
-      tt.map NodeTrace.info = t ∧ tt.members.Perm (List.range pts.length) ∧
+      tt.map NodeTrace.info = t ∧ IsBisection (ptKey pts) cfg.dim iter 0 0 t ∧
+      tt.members.Perm (List.range pts.length) ∧
       tt.AllNodes (fun tr lo hi =>
         tr.info.sum = wOf ws (lo.members ++ hi.members) ∧
         tr.info.weightLeft = wOf ws lo.members ∧
@@ -232,7 +234,8 @@ theorem rcb_recursion_invariant (wt : Int → Int → Bool) (cfg : Cfg) (iter : 
         (∀ j ∈ hi.members, tr.info.splitPos ≤ ptKey pts j tr.info.coord)) := by
   obtain ⟨tt, hT, he⟩ := runTree_has_trace wt cfg iter pts ws _ _ t h
   obtain ⟨hp, hA⟩ := runTreeT_facts wt cfg iter pts ws tt hdim hw hlen hT
-  exact ⟨tt, hT, he, hp, hA.imp (fun _ _ _ ⟨h1, h2, h3, h4, h5, _⟩ => ⟨h1, h2, h3, h4, h5⟩)⟩
+  exact ⟨tt, hT, he, (runTree_bisection_int wt cfg iter pts ws _ _ t hlen h).1, hp,
+    hA.imp (fun _ _ _ ⟨h1, h2, h3, h4, h5, _⟩ => ⟨h1, h2, h3, h4, h5⟩)⟩
 
 /-- **C04 along the whole recursion, per node, under the premise of
 `split_balanced_partial`.**  For every input (integer coordinates, weights ≥ 0, `D ≥ 1`) on
@@ -300,6 +303,13 @@ example : judgeT tolZero ⟨2, 100⟩ 3
     [[0, 0], [1, 0], [2, 0], [100, 0], [101, 0], [102, 0]] [1, 1, 1, 1, 1, 1] =
     some [(.tolerance, true, true), (.noPointToMax, true, true), (.allLeft, false, false),
           (.noPointToMax, true, true), (.plateau, false, false)] := by decide +kernel
+
+/-- The hypothesis `0 < cfg.dim` of `rcb_recursion_invariant` / `rcb_balanced_partial` is
+needed: with `D = 0` the model's bounding box is empty (every bound reads as `0`), the
+search starts outside its points, leaves at once with a vacuously resolved interval and
+cuts 0 | 3.  (`D = 0` is not a meaningful instantiation of the Rust code.) -/
+example : judgeT tolZero ⟨0, 100⟩ 1 [[5], [7], [9]] [1, 1, 1] =
+    some [(.noPointToMax, true, false)] := by decide +kernel
 
 end Coupe.Rcb
 
